@@ -50,6 +50,10 @@ type Case struct {
 	Reopen    bool              `json:"reopen"`
 	Format    string            `json:"format"`
 	PluginCfg map[string]string `json:"pluginConfig"`
+	// SignerAnn: the signer also offers manifest annotations of its own (as a plugin-backed signer
+	// does): "disjoint" keys, or "clashing" with the thumbprint / signing-time annotations, which
+	// the statement fixes
+	SignerAnn string `json:"signerAnnotations,omitempty"`
 }
 
 var (
@@ -73,6 +77,21 @@ func (s *spySigner) Sign(ctx context.Context, desc ocispec.Descriptor, opts nota
 	s.got = append(s.got, deepCopyDesc(desc))
 	s.opts = append(s.opts, opts)
 	return s.inner.Sign(ctx, desc, opts)
+}
+
+// annSpySigner is a spySigner that also offers manifest annotations (a fresh map per call).
+type annSpySigner struct {
+	*spySigner
+	kind string
+}
+
+func (a annSpySigner) PluginAnnotations() map[string]string {
+	m := map[string]string{"com.example.plugin.note": "from the signer"}
+	if a.kind == "clashing" {
+		m["io.cncf.notary.x509chain.thumbprint#S256"] = `["0000000000000000000000000000000000000000000000000000000000000000"]`
+		m["org.opencontainers.image.created"] = "1999-12-31T23:59:59Z"
+	}
+	return m
 }
 
 func deepCopyDesc(d ocispec.Descriptor) ocispec.Descriptor {
@@ -319,7 +338,11 @@ func run(c *Case) (string, string) {
 			before, _ = sandbox.Snapshot(dir)
 		}
 		opts := notation.SignOptions{SignerSignOptions: notation.SignerSignOptions{SignatureMediaType: c.Format, PluginConfig: cfg, SigningAgent: "c11"}, ArtifactReference: reference, UserMetadata: meta}
-		artDesc, sigDesc, err := notation.SignOCI(ctx, spy, repo, opts)
+		var theSigner notation.Signer = spy
+		if c.SignerAnn != "" {
+			theSigner = annSpySigner{spy, c.SignerAnn}
+		}
+		artDesc, sigDesc, err := notation.SignOCI(ctx, theSigner, repo, opts)
 		// the caller's option maps are never changed
 		if !reflect.DeepEqual(meta, c.Metadata) || !reflect.DeepEqual(cfg, c.PluginCfg) {
 			return "C11:caller-maps-changed:" + site, fmt.Sprintf("call %d changed the caller's option maps: metadata %v (was %v), plugin config %v (was %v)", call, meta, c.Metadata, cfg, c.PluginCfg)
@@ -408,7 +431,12 @@ func run(c *Case) (string, string) {
 			keys = append(keys, k)
 		}
 		sort.Strings(keys)
-		if strings.Join(keys, ",") != "io.cncf.notary.x509chain.thumbprint#S256,org.opencontainers.image.created" {
+		wantKeys := "io.cncf.notary.x509chain.thumbprint#S256,org.opencontainers.image.created"
+		gotKeys := strings.Join(keys, ",")
+		if c.SignerAnn != "" { // what the signer offers beside the two prescribed annotations may be passed on
+			gotKeys = strings.TrimPrefix(gotKeys, "com.example.plugin.note,")
+		}
+		if gotKeys != wantKeys {
 			return "C11:push:annotation-keys:" + site, fmt.Sprintf("signature manifest annotations %v", p.annotations)
 		}
 		if p.annotations["io.cncf.notary.x509chain.thumbprint#S256"] != thumbprints(theChain().Certs) {
@@ -492,6 +520,7 @@ func TestC11_Sequences(t *testing.T) {
 			c.Metadata = map[string]string{rp.Pick(rt, "reservedKey", "io.cncf.notary.x", "io.cncf.notary", "io.cncf.notary.x509chain.thumbprint#S256"): "v", "build": "42"}
 		}
 		c.Ref = rp.Pick(rt, "ref", "tag", "tag", "digest", "full-tag", "full-digest", "digest-elsewhere")
+		c.SignerAnn = rp.Pick(rt, "signerAnnotations", "", "", "disjoint", "clashing", "clashing")
 		if c.Ref == "digest-elsewhere" && c.Repo != "scripted" {
 			c.Ref = "tag"
 		}
@@ -510,6 +539,9 @@ func TestC11_Sequences(t *testing.T) {
 		}
 		if c.Reopen && c.Repo == "oci-layout" && c.Calls >= 2 {
 			cl = append(cl, "reopen")
+		}
+		if c.SignerAnn != "" {
+			cl = append(cl, "signer-annotations="+c.SignerAnn)
 		}
 		rec.Case(cl, len(c.ArtAnn) > 0 || c.Calls >= 2, stats.Fingerprint(fmt.Sprintf("%+v", *c)), func() any { return c })
 		key, msg := run(c)
